@@ -25,7 +25,14 @@
 (*     that MC_, Gen_ and Trace_ modules and Run share them;               *)
 (*  3. the run-time meaning of an accepted program (Exec): arrays are      *)
 (*     passed by reference, scalars by value, missing array parameters are *)
-(*     fresh arrays; every use prints.                                     *)
+(*     fresh arrays, missing scalar parameters are uninitialised -- on     *)
+(*     EVERY call, recursive ones included; the constant passed as         *)
+(*     argument number j is a string of j characters (so that a callee     *)
+(*     frame shifted by one place is visible); every use prints.           *)
+(*  4. (C19a) errors that the parser COLLECTS before it reports one: the   *)
+(*     unused parenthesised comma lists (parser.go keeps them in a table   *)
+(*     without order and reports one at the end of the text); the report   *)
+(*     must not depend on the order in which the table is walked.          *)
 (***************************************************************************)
 EXTENDS Integers, Sequences, FiniteSets, TLC
 
@@ -272,7 +279,9 @@ PassBound(p, rs) == rs.pass <= MaxChain(p) + 2
 \* characters, an array that many elements.  "s" appends a character and
 \* prints the length; "a" adds an element and prints the count; "len"
 \* prints length(v).  Global g lives in memory cell g; a missing array
-\* parameter gets a fresh cell; calls made from inside a function are
+\* parameter gets a fresh (empty) cell and a missing scalar parameter the
+\* value 0 (uninitialised) on every call; the constant passed as argument
+\* number j has j characters; calls made from inside a function are
 \* guarded by a depth limit (the generated AWK text contains that guard).
 MaxDepth == 2
 
@@ -311,7 +320,7 @@ BuildFrame(p, ty, f, fr, g, args, j, acc) ==     \* acc = [fr2, ms]
     IN IF j <= Len(args)
        THEN LET a == args[j]
                 ent == IF isArr THEN [ref |-> TRUE, c |-> CellOf(f, fr, a)]
-                       ELSE [ref |-> FALSE, c |-> IF a.sc = "C" THEN 1 ELSE GetVal(acc.ms, f, fr, a)]
+                       ELSE [ref |-> FALSE, c |-> IF a.sc = "C" THEN j ELSE GetVal(acc.ms, f, fr, a)]
             IN BuildFrame(p, ty, f, fr, g, args, j + 1, [acc EXCEPT !.fr = Append(@, ent)])
        ELSE IF isArr
             THEN BuildFrame(p, ty, f, fr, g, args, j + 1,
@@ -326,4 +335,33 @@ ExecCall(p, ty, f, fr, g, args, ms) ==
 MaxGlobal(p) == LET gs == GlobalIds(p) IN IF gs = {} THEN 0 ELSE CHOOSE m \in gs : \A k \in gs : m >= k
 ExecOut(p, ty) ==
   ExecBody(p, ty, 0, <<>>, 1, [mem |-> [k \in 1..MaxGlobal(p) |-> 0], out |-> <<>>, depth |-> 0]).ms.out
+
+\* what a call leaves out: the kinds of the parameters that get no argument ("S", "A"), over all calls of p
+OmittedKinds(p, ty) ==
+  UNION {{ty[<<StmtAt(p, x).f, j>>] : j \in (Len(StmtAt(p, x).args) + 1)..p.funcs[StmtAt(p, x).f].np} : x \in CallSites(p)}
+
+\* ------------------------- 4. errors collected before one is reported (C19a)
+\* A site is [l |-> line, c |-> place on the line, k |-> kind]:
+\*   "comma"  an unused parenthesised comma list   (a, 1);    the parser keeps these in a table (multiExprs)
+\*            until the whole text is read and then reports ONE of them
+\*   "type"   a global used as an array and as a scalar       reported by the resolver: the first in its walk
+\*   "undef"  a call of a function that is not defined        (same)
+\*   "args"   a call with more arguments than parameters      (same)
+\* The table has no order (a Go map).  The report is what a walk over the table in ANY order ends with when it
+\* keeps the smaller of (best so far, next).  With a total order that is the minimum whatever the walk; rel = "lex"
+\* is the lexicographic order on <<line, column>>, rel = "either" the relation `line smaller or column smaller`,
+\* which is not an order: TLC refutes CollectDeterministic for it (the demonstration that the property bites).
+PosLess(rel, a, b) == IF rel = "lex" THEN a[1] < b[1] \/ (a[1] = b[1] /\ a[2] < b[2]) ELSE a[1] < b[1] \/ a[2] < b[2]
+FarAway == <<1000000000, 1000000000>>
+RECURSIVE FoldReport(_, _, _)
+FoldReport(rel, walk, best) ==
+  IF walk = <<>> THEN best
+  ELSE FoldReport(rel, Tail(walk), IF PosLess(rel, Head(walk), best) THEN Head(walk) ELSE best)
+RECURSIVE WalksOf(_)
+WalksOf(S) == IF S = {} THEN {<<>>} ELSE UNION {{<<x>> \o w : w \in WalksOf(S \ {x})} : x \in S}
+ReportsOf(rel, S) == {FoldReport(rel, w, FarAway) : w \in WalksOf(S)}
+CommaPositions(sites) == {<<sites[k].l, sites[k].c>> : k \in {q \in 1..Len(sites) : sites[q].k = "comma"}}
+\* C19a on collected errors: one report, whatever the walk
+CollectDeterministic(rel, sites) == Cardinality(ReportsOf(rel, CommaPositions(sites))) = 1
+CollectVerdict(sites) == IF sites = <<>> THEN "accept" ELSE "reject"
 =============================================================================
